@@ -72,6 +72,14 @@ class Ctx:
 
     def sample(self, x):
         if len(self.samples) < 12:
+            # a sample is there to show what a case looks like: a very large one (e.g. a run with thousands of recorded
+            # fingerprints) is cut, so that the evidence file stays small
+            try:
+                txt = json.dumps(x)
+            except (TypeError, ValueError):
+                txt = str(x)
+            if len(txt) > 6000:
+                x = {"cut_to_6000_characters_of": len(txt), "head": txt[:6000]}
             self.samples.append(x)
 
     def _account(self, r, label, kind, constants=None):
